@@ -362,10 +362,18 @@ def run_post(prop_id, cfg, tier, seed, job_results):
 
 # ----------------------------------------------------------------------------- main per property
 
+_locks = []
+
+
 def check_property(prop_id, tier, seed, replay=None):
     cfg = P.PROPS[prop_id]
     t0 = time.time()
     os.makedirs(os.path.join(BUILD, prop_id), exist_ok=True)
+    # two runs of the same property against the same repository share the job directories: serialise them
+    import fcntl
+    lockf = open(os.path.join(BUILD, prop_id + ".lock"), "w")
+    fcntl.flock(lockf, fcntl.LOCK_EX)
+    _locks.append(lockf)
     for stale in glob.glob(os.path.join(BUILD, prop_id, "race-*.txt")):
         os.remove(stale)
     jobs = [j for j in cfg["jobs"] if tier in j.get("tiers", ("quick", "thorough"))]
